@@ -104,8 +104,10 @@ def histStep (ds : DataSet) (ws : List String) : Option (DataSet × String) :=
         match DataSet.parseInto true ds name ths text with
         | none => none
         | some ds' =>
+          -- the name is in use AND the text is not loadable: the load is refused, for whichever reason the loader meets first
+          let both := (ds.table? name).isSome && (match load text with | .error _ => true | _ => false)
           let e := if ds'.errors.length > ds.errors.length then
-              (match ds'.errors.getLast? with | some e => dsErrStr e | none => "?") else "-"
+              (if both then "E*" else match ds'.errors.getLast? with | some e => dsErrStr e | none => "?") else "-"
           let t := match ds'.table? name with
             | some t => tableStr t
             | none => "none"
